@@ -23,6 +23,7 @@ INVARIANT TimerWhileWaiting
 INVARIANT AnsweredWhenQuiet
 INVARIANT SegIndep
 INVARIANT OnlyValidReachHandler
+INVARIANT Progress
 PROPERTY TimeoutHarmless
 PROPERTY TimeoutAnswers
 CHECK_DEADLOCK FALSE
